@@ -254,7 +254,7 @@ func zzECHSetup() (p zzParrot, cfg *Config, cfgID uint8, aead uint16) {
 }
 
 //verif:harness C15 ech_outer_hides_name_inner_decodes unwind=4000 instrs=900000000 paths=40000 wall=1200
-//verif:stub (*math/rand.Rand).Shuffle zzStubShuffle
+//verif:stub (*math/rand.Rand).Shuffle zzStubShuffleIdentity
 //verif:stub (*github.com/refraction-networking/utls/internal/hpke.Sender).Seal zzStubSeal
 //verif:stub github.com/refraction-networking/utls/internal/hpke.SetupSender zzStubSetupSender
 //verif:expect end
@@ -289,7 +289,7 @@ func zzC15ECHOuterHidesNameInnerDecodes() {
 }
 
 //verif:harness C15 ech_second_hello_after_hrr unwind=4000 instrs=900000000 paths=40000 wall=1200
-//verif:stub (*math/rand.Rand).Shuffle zzStubShuffle
+//verif:stub (*math/rand.Rand).Shuffle zzStubShuffleIdentity
 //verif:stub (*github.com/refraction-networking/utls/internal/hpke.Sender).Seal zzStubSeal
 //verif:stub github.com/refraction-networking/utls/internal/hpke.SetupSender zzStubSetupSender
 //verif:stub (crypto.Hash).New zzStubHashNew
@@ -405,7 +405,7 @@ func (zzCountingReader) Read(b []byte) (int, error) {
 }
 
 //verif:harness C15 ech_acceptance_decides_reported_name unwind=4000 instrs=900000000 paths=40000 wall=1200
-//verif:stub (*math/rand.Rand).Shuffle zzStubShuffle
+//verif:stub (*math/rand.Rand).Shuffle zzStubShuffleIdentity
 //verif:stub (*github.com/refraction-networking/utls/internal/hpke.Sender).Seal zzStubSeal
 //verif:stub github.com/refraction-networking/utls/internal/hpke.SetupSender zzStubSetupSender
 //verif:stub (crypto.Hash).New zzStubHashNew
